@@ -996,7 +996,7 @@ def check_scaled(ctx, w, name, fn, agg, toks, normal, params, loc):
             rooted = post == "numpy.sqrt"
         r = _ratio(v, w.eps)
         if r is None or not all(x[0] == "call" and not x[2] for x in r[:2]):
-            it["ratio"].append((None if r is None else False,
+            it["ratio"].append((None if S.has_unknown(p.value) else False,
                                 "result is not metric(y_true, y_pred) / max(metric(naive), EPS): %s" % show(p.value)[:220]))
             continue
         num, den, floored = r
@@ -1048,7 +1048,7 @@ def check_relative_loss(ctx, w, name, fn, normal, loc):
     for p in normal:
         r = _ratio(p.value, w.eps)
         if r is None or not all(x[0] == "call" and x[1] == lf and not x[2] for x in r[:2]):
-            it["ratio"].append((None if r is None else False,
+            it["ratio"].append((None if S.has_unknown(p.value) else False,
                                 "result is not loss(y_true, y_pred) / max(loss(y_true, y_pred_benchmark), EPS) with the "
                                 "user's relative_loss_function: %s" % show(p.value)[:220]))
             continue
